@@ -471,6 +471,136 @@ def must_call_blocks(body, start, is_target_call, extra_block=()):
     return True, None
 
 
+def owner_root(mir, syn, path, depth=4):
+    """the function a reviewed site is attributed to: closures belong to the function they are written in, and a private free
+    function with exactly one caller belongs to that caller - so that moving code into a local helper (or a closure into a
+    private fn) does not turn a reviewed site into a new one"""
+    cache = mir.__dict__.setdefault("_owner_root", {})
+    if path in cache:
+        return cache[path]
+    cg = mir.callgraph()
+    callers = mir.__dict__.get("_callers")
+    if callers is None:
+        callers = defaultdict(set)
+        for a, bs in cg.items():
+            for b in bs:
+                callers[b].add(a)
+        mir.__dict__["_callers"] = callers
+    private = mir.__dict__.get("_private_free")
+    if private is None:
+        private = {f["qual"] for f in syn.fns if f.get("impl_of") is None and f.get("vis", "") == "" and f.get("qual")}
+        mir.__dict__["_private_free"] = private
+
+    def unclosure(p):
+        b = mir.fns.get(p)
+        n = 0
+        while b is not None and b.kind == "Closure" and b.parent and n < 8:
+            p = b.parent
+            b = mir.fns.get(p)
+            n += 1
+        return p
+    cur = unclosure(path)
+    for _ in range(depth):
+        if cur not in private:
+            break
+        cs = {unclosure(c) for c in callers.get(cur, ())} - {cur}
+        if len(cs) != 1:
+            break
+        cur = next(iter(cs))
+    cache[path] = cur
+    return cur
+
+
+def local_helpers(syn, fn, depth=2):
+    """private free functions of the same module that `fn` calls by name (transitively, bounded): code moved into such a helper
+    is still part of what `fn` does"""
+    out, seen, todo = [], {fn.get("qual")}, [(fn, 0)]
+    while todo:
+        f, d = todo.pop(0)
+        if d >= depth:
+            continue
+        for n in walk(f["body"]):
+            if n.get("k") == "call" and n["f"].get("k") == "path" and "::" not in n["f"]["p"]:
+                for c in syn.fns:
+                    if c["name"] == n["f"]["p"] and c["mod"] == fn["mod"] and c.get("impl_of") is None and c.get("vis", "") == "" and c.get("qual") not in seen and c.get("body"):
+                        seen.add(c.get("qual"))
+                        out.append(c)
+                        todo.append((c, d + 1))
+    return out
+
+
+def option_match_as_iflet(m):
+    """`match e { Some(p) => A, None | _ => B }` (either order) as the equivalent `if let Some(p) = e { A } else { B }` node; else None"""
+    if not isinstance(m, dict) or m.get("k") != "match" or len(m.get("arms", [])) != 2 or any(a.get("guard") for a in m["arms"]):
+        return None
+    some = [a for a in m["arms"] if src(a["pat"]).replace(" ", "").startswith("Some(")]
+    none = [a for a in m["arms"] if src(a["pat"]).replace(" ", "") in ("None", "_")]
+    if len(some) != 1 or len(none) != 1:
+        return None
+    return {"k": "if", "c": {"k": "let", "pat": some[0]["pat"], "e": m["e"], "ln": m.get("ln")}, "then": some[0]["body"], "else": none[0]["body"], "ln": m.get("ln"), "from_match": True}
+
+
+TEXT_TRANSFORMS = ("trim", "trim_start", "trim_end", "trim_matches", "trim_start_matches", "trim_end_matches", "replace", "replacen", "strip_prefix",
+                   "strip_suffix", "to_lowercase", "to_uppercase", "to_ascii_lowercase", "to_ascii_uppercase", "split", "split_whitespace", "lines", "skip",
+                   "take", "filter", "rev", "get", "split_at", "trim_left", "trim_right", "truncate", "drain", "remove", "retain", "pop", "split_off",
+                   "rsplit", "splitn", "split_once", "rsplit_once", "escape_default", "escape_debug", "char_indices", "bytes", "skip_while", "take_while")
+
+
+def text_as_is(syn, fn, param, consumers=("chars",), depth=3):
+    """does the text bound to `param` reach one of the consumer methods / functions as it is?  Follows bare hand-overs to
+    other functions of the crate (by name; same module first).  -> (reached: [where], bad: [what])"""
+    reached, bad = [], []
+    for n in walk(fn["body"]):
+        k = n.get("k")
+        if k == "mcall":
+            recv = strip(n["recv"])
+            if n["m"] in TEXT_TRANSFORMS and param in idents_in(n["recv"]) and not (n["m"] in consumers and src(recv) == param):
+                bad.append(f"{fn['name']}: `{src(n, -30)[:60]}`")
+            elif n["m"] in consumers and src(recv) == param:
+                reached.append(f"{fn['name']}: {param}.{n['m']}()")
+            elif n["m"] in consumers and param in idents_in(n["recv"]):
+                bad.append(f"{fn['name']}: `{src(n, -30)[:60]}` (not the text itself)")
+        elif k == "index" and param in idents_in(n["e"]):
+            bad.append(f"{fn['name']}: `{src(n, -30)[:60]}` (a slice of the text)")
+        elif k == "local" and n.get("init") is not None and n["pat"].get("k") in ("pident", "ptype"):
+            nm = [p_["name"] for p_ in walk(n["pat"]) if p_.get("k") == "pident"]
+            if nm == [param] and src(strip(n["init"])) != param:
+                bad.append(f"{fn['name']}: `{param}` is re-bound to `{src(n['init'], -30)[:50]}`")
+        elif k == "call" and n["f"].get("k") == "path":
+            name = n["f"]["p"].split("::")[-1]
+            for i, a in enumerate(n["args"]):
+                if src(strip(a)) != param:
+                    continue
+                if name in consumers:
+                    reached.append(f"{fn['name']}: {name}({param})")
+                    continue
+                cands = [c for c in syn.fns if c["name"] == name and c.get("impl_of") is None and len(c["sig"]["inputs"]) == len(n["args"])]
+                same = [c for c in cands if c["mod"] == fn["mod"]] or cands
+                if len(same) == 1 and depth > 0:
+                    pat = same[0]["sig"]["inputs"][i]["pat"]
+                    if pat.get("k") == "pident":
+                        r2, b2 = text_as_is(syn, same[0], pat["name"], consumers, depth - 1)
+                        reached += r2
+                        bad += b2
+    return reached, bad
+
+
+def must_call_deep(mir, body, start, is_target_call, depth=3, extra_block=(), _seen=None):
+    """must_call_blocks, where a call also counts when the (crate-local) callee itself calls the target on every one of
+    its own Ok paths - the obligation survives being moved into a helper.  depth bounds the helper nesting."""
+    seen = _seen or set()
+
+    def pred(t):
+        if is_target_call(t):
+            return True
+        cb = mir.fns.get(t.callee)
+        if cb is None or depth <= 0 or t.callee in seen or cb.kind == "Closure":
+            return False
+        h, _ = must_call_deep(mir, cb, 0, is_target_call, depth - 1, (), seen | {body.path})
+        return h
+    return must_call_blocks(body, start, pred, extra_block)
+
+
 def enum_switch_targets(body, enum_path, variant):
     """blocks that are the SwitchInt target for `variant` of enum `enum_path` (discriminant read + switch)."""
     out = []
